@@ -7,3 +7,5 @@ def run(ctx):
     # the failing-command model (coq/Engine/HistFailDefs.v, theorems of Properties_C05hist.v) run against the real engine:
     # one failing invocation (-j1 -k1) per history, then the invocations that follow
     histmodel.hook(ctx, 'C05', fault=True, quick=300, thorough=3000, key='hist_model_failing_commands')
+    # ... and -k N (coq/Engine/HistFailKDefs.v buildFK, theorems of Properties_C05keepgoing.v): several faults, -j1 -k 0/1/2/3
+    histmodel.hook(ctx, 'C05', fault='k', quick=250, thorough=3000, key='hist_model_keep_going')
